@@ -506,20 +506,20 @@ theorem fastq_set_inv (f f' : Fastq) (id seq : Str) (qs : List Int)
   · rename_i hlen
     split at hset
     · simp at hset
-    · rename_i f1 hdel
-      -- the state after the optional first deletion is consistent
-      have h1 : fastqFind f1.lines = .ok f1.entries := by
-        split at hdel
-        · exact fastq_del_inv f f1 _ hdel
-        · simp only [Except.ok.injEq] at hdel
-          subst hdel
-          exact hinv
+    · rename_i hc0
       split at hset
       · simp at hset
-      · rename_i hc0
+      · rename_i sc hsc
         split at hset
         · simp at hset
-        · rename_i sc hsc
+        · rename_i f1 hdel
+          -- the state after the optional first deletion is consistent
+          have h1 : fastqFind f1.lines = .ok f1.entries := by
+            split at hdel
+            · exact fastq_del_inv f f1 _ hdel
+            · simp only [Except.ok.injEq] at hdel
+              subst hdel
+              exact hinv
           split at hset
           · -- the identifier is still a key (duplicated in the file): delete again and re-index
             split at hset
